@@ -93,7 +93,7 @@ def lemma_len_prefix(d, p):
 def lemma_tlv_build(t, d, p):
     """identifier octet t, complete length octets d announcing len(p), then p: exactly one TLV with content p"""
     return implies(0 <= t and t <= 255 and length_ok(d + p) and length_octets(d + p) == len(d) and length_value(d + p) == len(p),
-                   tlv_ok(bytes([t]) + d + p, t) and tlv_size(bytes([t]) + d + p) == 1 + len(d) + len(p)
+                   tlv_ok(bytes([t]) + d + p, t) and tlv_ok(bytes([t]) + d + p, None) and tlv_size(bytes([t]) + d + p) == 1 + len(d) + len(p)
                    and tlv_content(bytes([t]) + d + p) == p)
 
 
